@@ -398,7 +398,11 @@ func repoCorpus() []string {
 			}
 		}
 	}
-	filepath.Walk("/repo", func(p string, info os.FileInfo, err error) error {
+	repoDir := "/repo"
+	if d := os.Getenv("VERIF_REPO"); d != "" {
+		repoDir = d
+	}
+	filepath.Walk(repoDir, func(p string, info os.FileInfo, err error) error {
 		if err != nil || info.IsDir() {
 			return nil
 		}
